@@ -40,7 +40,8 @@ def required_cells(tier):
             "order-dependent-exclude-patterns", "option-replacing-a-default-per-platform", "hard-linked-duplicate",
             "non-member-header:included-from-fortran-and-c", "non-member-header:forced-by-assembly-and-c",
             "competing-modes-under-hash-seeds", "platforms-sharing-one-database", "rounding-tie:distance", "rounding-tie:divergence",
-            "rounding-tie:average-coverage", "rounding-tie:distinct-enumeration-orders"]
+            "rounding-tie:average-coverage", "rounding-tie:distinct-enumeration-orders", "identical-bytes-in-two-languages",
+            "missing-database:platform-tables-permuted"]
 
 
 PASS_CONFIG = """[[compiler.gcc.parser]]
@@ -115,6 +116,10 @@ def gen_case(rng, index=1):
         src = rng.choice(rels)
         case["dups"][f"extra/copy{i}_{os.path.basename(src)}"] = src
     case["dups"]["extra/u2.c"] = "extra/u.c"
+    # byte-identical copies whose extension belongs to ANOTHER language family (a C file's text as free-form Fortran and
+    # the reverse): each name is read in its own language, whichever of the two the analysis meets first
+    case["dups"]["extra/u_copy.F90"] = "extra/u.c"
+    case["dups"]["extra/f_copy.hpp"] = "extra/f.f90"
     case["hard"] = {"extra/hl_u.c": "extra/u.c"}          # a second directory entry for a file that also has a copy
     return case
 
@@ -252,6 +257,8 @@ def check_case(ctx, case, base, cls, do_clustering=False):
     cells = {"duplicates-present", "file-symlinks"}
     if case.get("hard"):
         cells.add("hard-linked-duplicate")
+    if "extra/u_copy.F90" in case.get("dups", {}):
+        cells.add("identical-bytes-in-two-languages")
     if os.path.islink(os.path.join(root, "extra/f_alias.inc")):
         cells.add("cross-language-alias")
     if any(tu.get("extra_args") for tu in case["tus"]):
@@ -510,6 +517,43 @@ def rounding_tie_scenarios(ctx, base, names):
             acc.held(cells=cells, cls="tie", nontrivial={"table": table})
 
 
+def missing_database_scenario(ctx, base):
+    """One of three platforms names a commands file that does not exist.  Whatever the front end does about it (abort,
+    or go on without that platform), it must be the same for every order of the [platform.*] tables."""
+    import itertools as _it
+    acc = ctx.acc
+    d = os.path.join(base, "missingdb")
+    shutil.rmtree(d, ignore_errors=True)
+    root = os.path.join(d, "root")
+    os.makedirs(root)
+    files = {"a.c": "#ifdef CPU\nint c1;\n#endif\n#ifdef GPU\nint g1;\nint g2;\n#endif\nint both;\n", "b.c": "int b;\n"}
+    for rel, text in files.items():
+        with open(os.path.join(root, rel), "w") as f:
+            f.write(text)
+    for p, defs in (("cpu", ["CPU"]), ("gpu", ["GPU"])):
+        with open(os.path.join(root, p + ".json"), "w") as f:
+            json.dump([{"file": "a.c", "directory": root, "arguments": ["gcc"] + ["-D" + x for x in defs] + ["-c", "a.c"]}], f)
+    outcomes = {}
+    for order in _it.permutations(["cpu", "gpu", "phi"]):
+        with open(os.path.join(root, "analysis.toml"), "w") as f:
+            for p in order:
+                f.write(f"[platform.{p}]\ncommands = \"{p}.json\"\n\n")
+        dump = os.path.join(d, "dump.json")
+        if os.path.exists(dump):
+            os.unlink(dump)
+        rc, out, err = cli.run("codebasin", ["-R", "summary", "analysis.toml"], root, launch={"dump": dump})
+        acc.hook("cli-runs")
+        sm = json.load(open(dump))["setmap"] if rc == 0 and os.path.exists(dump) else None
+        outcomes[" ".join(order)] = {"rc": rc, "setmap": sm, "rows": sorted(",".join(sorted(k)) for k in cli.parse_summary(out)["rows"]) if rc == 0 else None}
+    cells = {"missing-database:platform-tables-permuted"}
+    distinct = {json.dumps(v, sort_keys=True) for v in outcomes.values()}
+    if len(distinct) != 1:
+        acc.violated({"input": {"scenario": "missing database"}, "witness": {"kind": "outcome depends on the order of the platform tables", "outcomes": outcomes}},
+                     cells=cells, cls="mixed")
+    else:
+        acc.held(cells=cells, cls="mixed", nontrivial={"scenario": "missing database"})
+
+
 def run_shard(ctx):
     b = bounds(ctx.tier)
     base = os.path.join(ctx.scratch, "c14")
@@ -517,6 +561,8 @@ def run_shard(ctx):
         mixed_language_scenarios(ctx, base)
     if ctx.shard == 1 % ctx.nshards:
         competing_modes_scenario(ctx, base + "-modes")
+    if ctx.shard == 2 % ctx.nshards:
+        missing_database_scenario(ctx, base + "-missingdb")
     tie_names = sorted(TIES)
     mine = [n for k, n in enumerate(tie_names) if (k + 2) % ctx.nshards == ctx.shard]
     if mine:
